@@ -143,6 +143,11 @@ def run(pid, tier, seed, drv, replay):
         info_names = re.findall(r"^INFO: (.*?) failed \(as expected\):", out, re.M)
         entry = {"run": r["name"], "exit": res["rc"], "wall_s": round(res["wall"], 1), "requests_sent": len(sent),
                  "failed_as_expected": len(info_names)}
+        # a peer that panics is a failure of the reference implementations whatever the verdicts of the cases say (the cases
+        # that happened to be in flight fail, pass when re-run in isolation and would otherwise be written off as flaky)
+        crash = re.search(r"^(panic: .*|fatal error: .*|.*http3?: panic serving.*|.*http2?: panic serving.*)$", out, re.M)
+        if crash:
+            violations.append(("%s: a peer process or in-process peer crashed: %s" % (r["name"], crash.group(1)[:200]), res["log"]))
         if res["rc"] == -9:
             notes.append("%s: timed out" % r["name"])
             per_run.append(entry)
